@@ -93,13 +93,24 @@ class ExprMixin:
 
     def branch(self, st: State, cond, tag="if"):
         """-> (st_true or None, st_false or None)"""
-        cond = z3.simplify(cond)
-        if z3.is_true(cond):
+        simp = z3.simplify(cond)
+        if z3.is_true(simp):
             return st, None
-        if z3.is_false(cond):
+        if z3.is_false(simp):
             return None, st
-        a = st.copy().assume(cond, f"{tag}:T")
-        b = st.copy().assume(z3.Not(cond), f"{tag}:F")
+        # the path condition keeps the condition as the translator produced it (not its simplified form): the same Python
+        # expression in code and specification must yield the same term (subjects of regular-language atoms are grouped
+        # syntactically)
+        # (only where it matters: conditions that carry a regular-language atom; everywhere else the simplified form, which
+        # the solvers digest better, is kept)
+        if "str.in_re" not in cond.sexpr():
+            cond_t, cond_f = simp, z3.Not(simp)
+        elif z3.is_not(simp) and not z3.is_not(cond):
+            cond_t, cond_f = cond, simp            # keep a plain literal for the false branch when simplify found one
+        else:
+            cond_t, cond_f = cond, z3.Not(cond)
+        a = st.copy().assume(cond_t, f"{tag}:T")
+        b = st.copy().assume(cond_f, f"{tag}:F")
         return (a if self.feasible(a) else None), (b if self.feasible(b) else None)
 
     def ev_many(self, nodes, st):
@@ -719,16 +730,19 @@ class ExprMixin:
                 raise Unsupported("symbolic tuple index")
             return [(s, self.tuple_get(base, idx.t))]
         if k in ("str", "seq") and self.spec_mode:
-            i = z3.IntVal(idx.t) if idx.is_py else idx.t
+            i = z3.IntVal(idx.t) if idx.is_py else z3.simplify(idx.t)     # `-1` arrives as a unary minus application
             n = z3.Length(base.t)
-            pos = i if not (z3.is_int_value(i) and i.as_long() < 0) else n + i
+            if z3.is_int_value(i):
+                pos = i if i.as_long() >= 0 else n + i
+            else:
+                pos = idx.t        # symbolic indices in specifications are always guarded by 0 <= j (kept as written)
             return [(s, self.seq_nth(base, pos))]   # total in specifications
         if k == "dict" and self.spec_mode:
             return [(s, self.dict_get(base, idx))]
         if k == "opt" and self.spec_mode:
             return self.subscript(s, self.unwrap(base), idx, node)
         if k in ("str", "seq"):
-            i = z3.IntVal(idx.t) if idx.is_py else idx.t
+            i = z3.IntVal(idx.t) if idx.is_py else z3.simplify(idx.t)
             n = z3.Length(base.t)
             ok, bad = self.branch(s, z3.And(i >= -n, i < n), "index")
             if bad is not None:
